@@ -231,7 +231,7 @@ class Consumer:
             self.all[p] = new
 
 
-def compare_step(cfg, model_post, model_res, real, consumer, pre_ids, findings):
+def compare_step(cfg, model_post, model_res, real, consumer, pre_ids, findings, op_kind=None):
     """Compare one replayed step.  Returns list of (kind, detail)."""
     bad = []
     out, st = real["out"], real["state"]
@@ -326,7 +326,15 @@ def compare_step(cfg, model_post, model_res, real, consumer, pre_ids, findings):
             if consumer.all.get(p, {}) != want_all:
                 bad.append(("c06.fold_all", {"prefix": p, "consumer": consumer.all.get(p, {}), "rib": want_all,
                                              "why": "a consumer skipping !any_changed notifications holds a wrong add-path set"}))
-    else:
+    if op_kind == "enddef":
+        seen_p = [n["p"] for n in out["notifs"]]
+        for p in cfg.prefixes:
+            el = st["elig"][p]
+            want = 1 if (el and el["paths"]) else 0
+            if seen_p.count(p) != want and (want == 1 or any(n["p"] == p and n["paths"] for n in out["notifs"])):
+                bad.append(("c11.end_once", {"prefix": p, "announcements": seen_p.count(p), "expected": want,
+                                             "why": "ending the deferral must announce every held prefix exactly once"}))
+    if model_post["defer"]:
         for n in out["notifs"]:
             if n["paths"]:
                 bad.append(("c11.leak", {"prefix": n["p"], "paths": [ident(x) for x in n["paths"]],
@@ -376,7 +384,7 @@ def replay_walks(c, pid, cfg, walks, kinds=None, tag="w"):
             if real.get("panic") is not None:
                 bad = [("panic", {"message": real["panic"][:300]})]
             else:
-                bad, pre_ids = compare_step(cfg, stp["post"], stp["res"], real, consumer, pre_ids, c.findings)
+                bad, pre_ids = compare_step(cfg, stp["post"], stp["res"], real, consumer, pre_ids, c.findings, stp["op"]["k"])
             if bad:
                 for kind, detail in bad:
                     kinds_seen[kind] = kinds_seen.get(kind, 0) + 1
